@@ -377,7 +377,9 @@ Definition known_C02_nullable_fill_bareword_enum (s : schema) (acts : list actio
    its target table, target column or the primary key / unique over exactly the referenced columns is only established by
    a later action of the same plan.  SQLite accepts the declaration; with foreign_keys=ON the next statement that has to
    look the key up (the INSERT of the rebuild that adds the foreign key, the DROP TABLE of a rebuild of the target) answers
-   'foreign key mismatch - "child" referencing "parent"' (or 'no such table' when the target does not exist yet) *)
+   'foreign key mismatch - "child" referencing "parent"' (or 'no such table' when the target does not exist yet).
+   Self references are included: the temp table of the rebuild that adds the key carries REFERENCES "t" ("idx") while the
+   old "t" — the table the copy reads from and the parent the engine checks — still has no key over idx. *)
 Definition same_names (a b : list string) : bool :=
   (forallb (fun x => existsb (String.eqb x) b) a && forallb (fun x => existsb (String.eqb x) a) b)%bool.
 Definition is_key_in (s : schema) (rt : string) (rcs : list string) : bool :=
@@ -399,6 +401,10 @@ Definition foreign_keys_created (s : schema) (a : action) : list (string * list 
                                       end) (t_constraints td)
       | None => []
       end
+  | AddColumn t _ _ =>
+      (* an inline foreign_key of the new column is promoted to a table constraint by the replay: the next rebuild of the table
+         (often the AddConstraint of the very key it references, a self reference included) writes it into the temp table *)
+      flat_map (fun k => match k with CForeignKey _ _ rt rcs _ _ => [(rt, rcs)] | _ => [] end) (new_constraints_of s a t)
   | _ => []
   end.
 Definition references_before_key (s : schema) (_ : list action) (a : action) : bool :=
